@@ -23,21 +23,9 @@ Definition nAss : pstr := [97%N; 42%N; 42%N].
 Definition nX : pstr := [88%N].
 Definition dot : chr := 46%N.
 
-Lemma consts_ctZ : consts_nonzero [ mkCinfo KindD None 8 5 15 [100%N] (Some 1%Z) FNone ].
-Proof. intros c ci H. destruct c as [|[|c]]; cbn in H; try discriminate. injection H as <-. cbn. split; discriminate. Qed.
 
-(* ---- the two refuted statements (C04) ---- *)
+(* ---- the refuted statement (C04) ---- *)
 Definition ctD : ctable := [ mkCinfo KindD None 8 5 15 [100%N] (Some 1%Z) FNone ].
-
-(* with an explicit length 0 the guards `elif length and ...` are skipped *)
-Theorem CompOK_refuted_for_zero_length :
-  exists ops, ~ CompOK (run ctD (init ctD 2) ops).
-Proof.
-  exists [ODomain 0 0 (Some nAs) (Some 5%Z) None None; ODomain 1 0 (Some nA) (Some 0%Z) None None].
-  intros C.
-  assert (E : (0 = 5)%Z); [|discriminate].
-  eapply (C 1 0); try (vm_compute; split; reflexivity); vm_compute; reflexivity.
-Qed.
 
 (* x** created first, then x* with another length: identifiers('x*') looks at 'x' only *)
 Definition CompOK_any_base (st : state) : Prop :=
@@ -46,10 +34,9 @@ Definition CompOK_any_base (st : state) : Prop :=
     o_data oi = DDom li -> o_data oj = DDom lj -> o_name oj = o_name oi ++ [cStar] -> li = lj.
 
 Theorem CompOK_refuted_for_double_star :
-  exists ops, Forall op_guard ops /\ ~ CompOK_any_base (run ctD (init ctD 2) ops).
+  exists ops, ~ CompOK_any_base (run ctD (init ctD 2) ops).
 Proof.
   exists [ODomain 0 0 (Some nAss) (Some 7%Z) None None; ODomain 1 0 (Some nAs) (Some 5%Z) None None].
-  split; [repeat constructor; cbn; discriminate|].
   intros C. assert (E : (5 = 7)%Z); [|discriminate].
   eapply (C 1 0); try (vm_compute; split; reflexivity); vm_compute; reflexivity.
 Qed.
@@ -64,8 +51,24 @@ Example ex_compok :
   snd (step ctD st (ODomain 2 0 (Some nAs) (Some 9%Z) None None)) = Raised eSingleton None /\
   snd (step ctD st (OComplement 2 1)) = Returned 0.
 Proof.
-  cbn zeta. split; [apply good_run; [exact consts_ctZ | repeat constructor; cbn; discriminate | apply good_init]|].
+  cbn zeta. split; [apply good_run; apply good_init|].
   split; [eexists; eexists; vm_compute; repeat split; reflexivity|]. split; vm_compute; reflexivity.
+Qed.
+
+(* C04 after the repair of `elif length and` / len(): a length of 0 is a length (the former witness
+   DomainS('a*', 5); DomainS('a', 0) is refused, a(0) and a*(0) live together), and ~d of a domain of
+   negative length is created instead of raising ValueError *)
+Example ex_zero_and_negative_lengths :
+  let st := run ctD (init ctD 3) [ODomain 0 0 (Some nAs) (Some 5%Z) None None] in
+  snd (step ctD st (ODomain 1 0 (Some nA) (Some 0%Z) None None)) = Raised eSingleton None /\
+  (let s0 := run ctD (init ctD 3) [ODomain 0 0 (Some nA) (Some 0%Z) None None; OComplement 1 0] in
+   exists oi oj, live_obj (heap s0) 0 oi /\ live_obj (heap s0) 1 oj /\ o_name oj = o_name oi ++ [cStar] /\
+                 o_data oi = DDom 0 /\ o_data oj = DDom 0) /\
+  (let sn := run ctD (init ctD 3) [ODomain 0 0 (Some nA) (Some (-3)%Z) None None] in
+   snd (step ctD sn (OComplement 1 0)) = Created 1).
+Proof.
+  cbn zeta. split; [vm_compute; reflexivity|]. split; [|vm_compute; reflexivity].
+  eexists; eexists; vm_compute; repeat split; reflexivity.
 Qed.
 
 (* C01: a conflict with `existing`; a consistent request returns the object; name-only look-up *)
@@ -134,14 +137,6 @@ Definition counters_full : Prop :=
     (exists z, class_id ct st c = Some z /\ cs_id (cget (fst (step ct st o)) c) = Some (z + 1)%Z /\
                ((exists id, snd (step ct st o) = Created id) \/ exists e, snd (step ct st o) = Raised eUserFail e)).
 
-(* C04: in a Good state ~d is never refused for a non-failing class (proved parts: invert_spec,
-   invert_involutive: whatever ~d and ~~d return is right) *)
-Definition invert_never_refused_full : Prop :=
-  forall ct st dst src i ob l ci, Good ct st -> consts_nonzero ct ->
-    get_root st src = Some i -> live_obj (heap st) i ob -> o_data ob = DDom l -> base_unstarred (o_name ob) ->
-    nth_error ct (o_cls ob) = Some ci -> c_fail ci = FNone ->
-    exists o, snd (step ct st (OComplement dst src)) = Returned o \/ snd (step ct st (OComplement dst src)) = Created o.
-
 (* the fuel of the DomainS recursion suffices for names with at most 5 trailing stars *)
 Definition no_fuel_exhaustion_full : Prop :=
   forall ct c st name len prefix dtype k e,
@@ -151,9 +146,9 @@ Definition no_fuel_exhaustion_full : Prop :=
 (* C05: release followed by a redefinition with other parameters, as one statement about operations
    (proved parts: release, redefine_after_release, ex_release) *)
 Definition release_redefine_full : Prop :=
-  forall ct st slot c ci n l l' i ob, Good ct st -> consts_nonzero ct ->
+  forall ct st slot c ci n l l' i ob, Good ct st ->
     get_root st slot = Some i -> live_obj (heap st) i ob -> o_cls ob = c -> o_name ob = n -> o_data ob = DDom l ->
-    nth_error ct c = Some ci -> c_fail ci = FNone -> l' <> 0%Z ->
+    nth_error ct c = Some ci -> c_fail ci = FNone ->
     ~ Reach (heap st) (root_ids (roots (set_root st slot None))) i ->
     (forall j oj, live_obj (heap st) j oj -> o_cls oj = c -> o_name oj <> cname_of n) ->
     exists id, snd (step ct (fst (step ct st (ODrop slot))) (ODomain slot c (Some n) (Some l') None None)) = Created id.
